@@ -752,4 +752,655 @@ theorem quiesce_spec (s : State α) (h : Inv s)
       · rfl
       · exact settleEvs_noSrc _ _ e he
 
+/-! ### the work bound `phi` decreases with every enabled event except `src` -/
+
+def bw (w : α → Nat) (buf : List α) : Nat := (buf.map (fun y => 2 + w y)).sum
+def cw (w : α → Nat) (chan : List (List α)) : Nat := (chan.map (fun b => 2 + (b.map w).sum)).sum
+def stageW (w : α → Nat) (t : Stage α) : Nat := bw w t.buf + cw w t.chan
+def armed (t : Stage α) : Nat := if t.idle then 0 else 1
+
+theorem phi_cons (s : Stage α) (rest : List (Stage α)) :
+    phi (s :: rest) = stageW (wt (fsOf rest)) s + armed s + phi rest := rfl
+
+theorem bw_append (w : α → Nat) (a b : List α) : bw w (a ++ b) = bw w a + bw w b := by
+  simp [bw, List.sum_append]
+
+theorem cw_append (w : α → Nat) (a b : List (List α)) : cw w (a ++ b) = cw w a + cw w b := by
+  simp [cw, List.sum_append]
+
+theorem sum_le_bw (w : α → Nat) (l : List α) : (l.map w).sum ≤ bw w l := by
+  induction l with
+  | nil => simp [bw]
+  | cons x l ih => simp only [bw, List.map_cons, List.sum_cons] at ih ⊢; omega
+
+theorem batch_le (w : α → Nat) (l : List α) (h : l ≠ []) : 2 + (l.map w).sum ≤ bw w l := by
+  cases l with
+  | nil => exact absurd rfl h
+  | cons x l =>
+    have := sum_le_bw w l
+    simp only [bw, List.map_cons, List.sum_cons] at this ⊢; omega
+
+theorem flush_work (w : α → Nat) (buf : List α) :
+    cw w (Batcher.flush buf).2 + bw w (Batcher.flush buf).1 ≤ bw w buf := by
+  cases buf with
+  | nil => simp [Batcher.flush, cw, bw]
+  | cons x l =>
+    have := batch_le w (x :: l) (by simp)
+    simp only [Batcher.flush, List.isEmpty_cons, Bool.false_eq_true, if_false]
+    simp only [cw, List.map_cons, List.map_nil, List.sum_cons, List.sum_nil] at this ⊢
+    simp only [bw, List.map_nil, List.sum_nil] at this ⊢
+    omega
+
+theorem enqueue_work (m : Batcher.Mode) (buf : List α) (x : α) (el : Bool) (w : α → Nat) :
+    cw w (Batcher.enqueue m buf x el).2 + bw w (Batcher.enqueue m buf x el).1 ≤ bw w buf + (2 + w x) := by
+  have hb : bw w (buf ++ [x]) = bw w buf + (2 + w x) := by simp [bw_append, bw]
+  cases m with
+  | single => simp [Batcher.enqueue, cw, bw]; omega
+  | fixed n =>
+    simp only [Batcher.enqueue]
+    split
+    · have := flush_work w (buf ++ [x]); omega
+    · simp [cw, hb]
+  | adaptive n =>
+    simp only [Batcher.enqueue]
+    split
+    · have := flush_work w (buf ++ [x]); omega
+    · simp [cw, hb]
+
+theorem push_work (w : α → Nat) (t : Stage α) (x : α) (el : Bool) :
+    stageW w (t.push x el) ≤ stageW w t + (2 + w x) := by
+  have := enqueue_work t.mode t.buf x el w
+  simp only [stageW, Stage.push, cw_append]
+  omega
+
+theorem pushAll_work (w : α → Nat) : ∀ (xs : List α) (t : Stage α) (els : List Bool),
+    stageW w (t.pushAll xs els) ≤ stageW w t + bw w xs := by
+  intro xs
+  induction xs with
+  | nil => intro t els; simp [Stage.pushAll, bw]
+  | cons x xs ih =>
+    intro t els
+    have h1 := push_work w t x (els.headD false)
+    have h2 := ih (t.push x (els.headD false)) els.tail
+    simp only [Stage.pushAll]
+    have : bw w (x :: xs) = (2 + w x) + bw w xs := by simp [bw]
+    omega
+
+theorem bw_flatMap (f : α → List α) (fs : List (α → List α)) (b : List α) :
+    bw (wt fs) (b.flatMap f) = (b.map (wt (f :: fs))).sum := by
+  induction b with
+  | nil => simp [bw]
+  | cons y b ih =>
+    rw [List.flatMap_cons, bw_append, ih]
+    simp [wt, bw]
+
+theorem feed_work (fs : List (α → List α)) (t : Stage α) (b : List α) (els : List Bool) :
+    stageW (wt fs) (t.feed b els) ≤ stageW (wt fs) t + (b.map (wt (t.f :: fs))).sum := by
+  have := pushAll_work (wt fs) (b.flatMap t.f) t els
+  rw [bw_flatMap] at this
+  simpa [Stage.feed, stageW] using this
+
+theorem flushIdle_work (w : α → Nat) (t : Stage α) : stageW w t.flushIdle ≤ stageW w t := by
+  have := flush_work w t.buf
+  simp only [stageW, Stage.flushIdle, cw_append]
+  omega
+
+theorem recvL_work : ∀ (i : Nat) (els : List Bool) (l : List (Stage α)) (sink : List α), AllOk l →
+    (recvEnabledL i l = true → phi (recvL i els l sink).1 < phi l) ∧
+    (recvEnabledL i l = false → recvL i els l sink = (l, sink)) := by
+  intro i
+  induction i with
+  | zero =>
+    intro els l sink hok
+    cases l with
+    | nil => simp [recvEnabledL, recvL]
+    | cons s rest =>
+      cases hc : s.chan with
+      | nil => simp [recvEnabledL, recvL, hc]
+      | cons b bs =>
+        refine ⟨fun _ => ?_, fun h => by simp [recvEnabledL, hc] at h⟩
+        cases rest with
+        | nil =>
+          simp only [recvL, hc, phi_cons, stageW, armed, cw, List.map_cons, List.sum_cons]
+          omega
+        | cons t rest' =>
+          obtain ⟨_, _, g3, _, g5⟩ := feed_spec t b els (hok t (by simp))
+          have hw := feed_work (fsOf rest') t b els
+          simp only [recvL, hc, phi_cons, fsOf, List.map_cons, g3]
+          simp only [stageW, armed, g5, cw, List.map_cons, List.sum_cons, hc, Bool.false_eq_true, if_false] at hw ⊢
+          have : (if t.idle = true then 0 else 1) + 1 ≥ 1 := by omega
+          simp only [fsOf] at hw
+          split <;> omega
+  | succ i ih =>
+    intro els l sink hok
+    cases l with
+    | nil => simp [recvEnabledL, recvL]
+    | cons s rest =>
+      have hok' : AllOk rest := fun t ht => hok t (by simp [ht])
+      obtain ⟨h1, h2⟩ := ih els rest sink hok'
+      obtain ⟨_, _, g3, _⟩ := recvL_spec i els rest sink hok'
+      refine ⟨fun he => ?_, fun he => ?_⟩
+      · have := h1 (by simpa [recvEnabledL] using he)
+        simp only [recvL, phi_cons, g3]
+        omega
+      · have := h2 (by simpa [recvEnabledL] using he)
+        simp only [recvL, this]
+
+theorem timeoutL_work : ∀ (i : Nat) (l : List (Stage α)), AllOk l →
+    (timeoutEnabledL i l = true → phi (timeoutL i l) < phi l) ∧
+    (timeoutEnabledL i l = false → timeoutL i l = l) := by
+  intro i
+  induction i using Nat.strongRecOn with
+  | _ i ih =>
+    intro l hok
+    match i, l with
+    | 0, l => simp [timeoutEnabledL, timeoutL]
+    | _ + 1, [] => simp [timeoutEnabledL, timeoutL]
+    | _ + 1, [s] => simp [timeoutEnabledL, timeoutL]
+    | 1, s :: t :: rest =>
+      refine ⟨fun he => ?_, fun he => ?_⟩
+      · have he' : timeoutEnabled s t = true := by simpa [timeoutEnabledL] using he
+        have hidle : t.idle = false := by
+          simp only [timeoutEnabled, Bool.and_eq_true, Bool.not_eq_true'] at he'; exact he'.1.2
+        obtain ⟨_, _, g3, _, _, g6⟩ := flushIdle_spec t
+        have hw := flushIdle_work (wt (fsOf rest)) t
+        simp only [timeoutL, he', if_true, phi_cons, fsOf, List.map_cons, g3, armed, g6, hidle]
+        simp only [fsOf] at hw
+        simp; omega
+      · have he' : timeoutEnabled s t = false := by simpa [timeoutEnabledL] using he
+        simp [timeoutL, he']
+    | i + 2, s :: t :: rest =>
+      have hok' : AllOk (t :: rest) := fun u hu => hok u (by simp [hu])
+      obtain ⟨h1, h2⟩ := ih (i + 1) (by omega) (t :: rest) hok'
+      obtain ⟨_, _, g3, _⟩ := timeoutL_spec (i + 1) (t :: rest) hok'
+      refine ⟨fun he => ?_, fun he => ?_⟩
+      · have := h1 (by simpa [timeoutEnabledL] using he)
+        have e1 := phi_cons s (timeoutL (i + 1) (t :: rest))
+        have e2 := phi_cons s (t :: rest)
+        rw [g3] at e1
+        simp only [timeoutL]
+        omega
+      · have := h2 (by simpa [timeoutEnabledL] using he)
+        simp only [timeoutL, this]
+
+/-- every event except `src`: if enabled it lowers the work bound, otherwise it changes nothing -/
+theorem step_work (s : State α) (h : Inv s) (e : Ev α) (he : Ev.isSrc e = false) :
+    (Enabled s e = true → phi (step s e).stages < phi s.stages) ∧
+    (Enabled s e = false → step s e = s) := by
+  cases e with
+  | src x els => simp [Ev.isSrc] at he
+  | srcIdle =>
+    cases hst : s.stages with
+    | nil => simp [Enabled, step, hst]
+    | cons s0 rest =>
+      have hs0 := h.ok s0 (by rw [hst]; simp)
+      refine ⟨fun hen => ?_, fun hen => ?_⟩
+      · have hidle : s0.idle = false := by simpa [Enabled, hst] using hen
+        obtain ⟨_, _, g3, _, _, g6⟩ := flushIdle_spec s0
+        have hw := flushIdle_work (wt (fsOf rest)) s0
+        simp only [step, hst, phi_cons, armed, g6, hidle]
+        simp; omega
+      · have hidle : s0.idle = true := by simpa [Enabled, hst] using hen
+        have hb := hs0.2 hidle
+        have : s0.flushIdle = s0 := by
+          cases s0; simp_all [Stage.flushIdle, Batcher.flush]
+        cases s
+        simp_all [step]
+  | recv i els =>
+    obtain ⟨h1, h2⟩ := recvL_work i els s.stages s.sink h.ok
+    refine ⟨fun hen => by simpa [step] using h1 (by simpa [Enabled] using hen), fun hen => ?_⟩
+    have := h2 (by simpa [Enabled] using hen)
+    cases s
+    simp_all [step]
+  | timeout i =>
+    obtain ⟨h1, h2⟩ := timeoutL_work i s.stages h.ok
+    refine ⟨fun hen => by simpa [step] using h1 (by simpa [Enabled] using hen), fun hen => ?_⟩
+    have := h2 (by simpa [Enabled] using hen)
+    cases s
+    simp_all [step]
+
+theorem run_work : ∀ (es : List (Ev α)) (s : State α), Inv s → (∀ e ∈ es, Ev.isSrc e = false) →
+    countEnabled s es + phi (run s es).stages ≤ phi s.stages := by
+  intro es
+  induction es with
+  | nil => intro s _ _; simp [countEnabled, run]
+  | cons e es ih =>
+    intro s h hes
+    obtain ⟨h1, h2⟩ := step_work s h e (hes e (by simp))
+    have hi := (step_inv s e h).1
+    have := ih (step s e) hi (fun e' he' => hes e' (by simp [he']))
+    simp only [countEnabled, run]
+    cases hen : Enabled s e with
+    | true => have := h1 hen; simp; omega
+    | false => rw [h2 hen] at this ⊢; simp; omega
+
+theorem chans_empty_of_stuck : ∀ (l : List (Stage α)), (∀ i, recvEnabledL i l = false) →
+    ∀ t ∈ l, t.chan = [] := by
+  intro l
+  induction l with
+  | nil => intro _ t ht; simp at ht
+  | cons s rest ih =>
+    intro h t ht
+    simp only [List.mem_cons] at ht
+    rcases ht with rfl | ht
+    · have := h 0
+      simpa [recvEnabledL] using this
+    · exact ih (fun i => by simpa [recvEnabledL] using h (i + 1)) t ht
+
+theorem idle_of_stuck : ∀ (l : List (Stage α)), (∀ i, timeoutEnabledL i l = false) →
+    (∀ t ∈ l, t.chan = []) → (∀ t ∈ l.tail, isAdaptive t.mode = true) → ∀ t ∈ l.tail, t.idle = true := by
+  intro l
+  induction l with
+  | nil => intro _ _ _ t ht; simp at ht
+  | cons s rest ih =>
+    intro h hch hadp t ht
+    cases rest with
+    | nil => simp at ht
+    | cons u rest' =>
+      simp only [List.tail_cons, List.mem_cons] at ht
+      rcases ht with rfl | ht
+      · have h1 := h 1
+        have hs := hch s (by simp)
+        have ha := hadp t (by simp)
+        simp [timeoutEnabledL, timeoutEnabled, hs, ha] at h1
+        exact h1
+      · exact ih (fun i => by
+            cases i with
+            | zero => rfl
+            | succ j => simpa [timeoutEnabledL] using h (j + 2))
+          (fun v hv => hch v (by simp [hv])) (fun v hv => hadp v (by simp at hv ⊢; exact Or.inr hv)) t
+          (by simpa using ht)
+
+/-- when nothing but new input is enabled, nothing is buffered or queued any more -/
+theorem stuck_quiescent (s : State α) (h : Inv s) (hst : Stuck s)
+    (hadp : ∀ t ∈ s.stages.tail, isAdaptive t.mode = true) : Quiescent s.stages := by
+  have hch := chans_empty_of_stuck s.stages (fun i => hst (.recv i []) rfl)
+  have hid := idle_of_stuck s.stages (fun i => hst (.timeout i) rfl) hch hadp
+  intro t ht
+  refine ⟨?_, hch t ht⟩
+  cases hl : s.stages with
+  | nil => rw [hl] at ht; simp at ht
+  | cons s0 rest =>
+    rw [hl] at ht hid
+    simp only [List.mem_cons] at ht
+    rcases ht with rfl | ht
+    · have := hst .srcIdle rfl
+      have hidle : t.idle = true := by simpa [Enabled, hl] using this
+      exact (h.ok t (by rw [hl]; simp)).2 hidle
+    · exact (h.ok t (by rw [hl]; simp [ht])).2 (hid t (by simpa using ht))
+
+theorem srcItems_noSrc : ∀ (es : List (Ev α)), (∀ e ∈ es, Ev.isSrc e = false) → srcItems es = [] := by
+  intro es
+  induction es with
+  | nil => intro _; rfl
+  | cons e es ih =>
+    intro h
+    have he := h e (by simp)
+    cases e with
+    | src x els => simp [Ev.isSrc] at he
+    | srcIdle => exact ih (fun e' he' => h e' (by simp [he']))
+    | recv i els => exact ih (fun e' he' => h e' (by simp [he']))
+    | timeout i => exact ih (fun e' he' => h e' (by simp [he']))
+
+/-! ### a block times out at most once between two receives -/
+
+def idleAtL : Nat → List (Stage α) → Bool
+  | _, [] => true
+  | 0, s :: _ => s.idle
+  | i + 1, _ :: rest => idleAtL i rest
+
+theorem idle_blocks_timeout : ∀ (i : Nat) (l : List (Stage α)), idleAtL i l = true → timeoutEnabledL i l = false := by
+  intro i
+  induction i using Nat.strongRecOn with
+  | _ i ih =>
+    intro l h
+    match i, l with
+    | 0, l => rfl
+    | _ + 1, [] => rfl
+    | _ + 1, [s] => rfl
+    | 1, s :: t :: rest =>
+      have : t.idle = true := by simpa [idleAtL] using h
+      simp [timeoutEnabledL, timeoutEnabled, this]
+    | i + 2, s :: t :: rest =>
+      have := ih (i + 1) (by omega) (t :: rest) (by simpa [idleAtL] using h)
+      simpa [timeoutEnabledL] using this
+
+theorem timeout_sets_idle : ∀ (i : Nat) (l : List (Stage α)), timeoutEnabledL i l = true →
+    idleAtL i (timeoutL i l) = true := by
+  intro i
+  induction i using Nat.strongRecOn with
+  | _ i ih =>
+    intro l h
+    match i, l with
+    | 0, l => simp [timeoutEnabledL] at h
+    | _ + 1, [] => simp [timeoutEnabledL] at h
+    | _ + 1, [s] => simp [timeoutEnabledL] at h
+    | 1, s :: t :: rest =>
+      have he : timeoutEnabled s t = true := by simpa [timeoutEnabledL] using h
+      simp [timeoutL, he, idleAtL, Stage.flushIdle]
+    | i + 2, s :: t :: rest =>
+      have := ih (i + 1) (by omega) (t :: rest) (by simpa [timeoutEnabledL] using h)
+      simpa [timeoutL, idleAtL] using this
+
+theorem timeout_keeps_idle : ∀ (j i : Nat) (l : List (Stage α)), idleAtL i l = true →
+    idleAtL i (timeoutL j l) = true := by
+  intro j
+  induction j using Nat.strongRecOn with
+  | _ j ih =>
+    intro i l h
+    match j, l with
+    | 0, l => simpa [timeoutL] using h
+    | _ + 1, [] => simp [timeoutL, idleAtL]
+    | _ + 1, [s] => simpa [timeoutL] using h
+    | 1, s :: t :: rest =>
+      simp only [timeoutL]
+      split
+      · match i with
+        | 0 => simpa [idleAtL] using h
+        | 1 => simp [idleAtL, Stage.flushIdle]
+        | i + 2 => simpa [idleAtL] using h
+      · exact h
+    | j + 2, s :: t :: rest =>
+      simp only [timeoutL]
+      match i with
+      | 0 => simpa [idleAtL] using h
+      | i + 1 => exact ih (j + 1) (by omega) i (t :: rest) (by simpa [idleAtL] using h)
+
+theorem recv_keeps_idle : ∀ (j : Nat) (els : List Bool) (i : Nat) (l : List (Stage α)) (sink : List α),
+    j + 1 ≠ i → idleAtL i (recvL j els l sink).1 = idleAtL i l := by
+  intro j
+  induction j with
+  | zero =>
+    intro els i l sink hne
+    cases l with
+    | nil => rfl
+    | cons s rest =>
+      cases hc : s.chan with
+      | nil => simp [recvL, hc]
+      | cons b bs =>
+        cases rest with
+        | nil => cases i <;> simp [recvL, hc, idleAtL]
+        | cons t rest' =>
+          match i with
+          | 0 => simp [recvL, hc, idleAtL]
+          | 1 => exact absurd rfl hne
+          | i + 2 => simp [recvL, hc, idleAtL]
+  | succ j ih =>
+    intro els i l sink hne
+    cases l with
+    | nil => rfl
+    | cons s rest =>
+      match i with
+      | 0 => simp [recvL, idleAtL]
+      | i + 1 => simpa [recvL, idleAtL] using ih els i rest sink (by omega)
+
+/-- **One timeout per drained block.** In any schedule (input included) that contains no receive of
+    block `i ≥ 1`, at most one `timeout i` is enabled; none if the block is already idle. -/
+theorem countTimeouts_le : ∀ (es : List (Ev α)) (i : Nat) (s : State α), 1 ≤ i → noRecvOf i es = true →
+    countTimeouts i s es ≤ 1 ∧ (idleAtL i s.stages = true → countTimeouts i s es = 0) := by
+  intro es
+  induction es with
+  | nil => intro i s _ _; simp [countTimeouts]
+  | cons e es ih =>
+    intro i s hi hno
+    obtain ⟨i', rfl⟩ : ∃ i', i = i' + 1 := ⟨i - 1, by omega⟩
+    cases e with
+    | src x els =>
+      obtain ⟨h1, h2⟩ := ih (i' + 1) (step s (.src x els)) hi (by simpa [noRecvOf] using hno)
+      have hid : idleAtL (i' + 1) (step s (.src x els)).stages = idleAtL (i' + 1) s.stages := by
+        cases hst : s.stages <;> simp [step, hst, idleAtL]
+      simp only [countTimeouts, Nat.zero_add]
+      exact ⟨h1, fun h => h2 (by rw [hid]; exact h)⟩
+    | srcIdle =>
+      obtain ⟨h1, h2⟩ := ih (i' + 1) (step s .srcIdle) hi (by simpa [noRecvOf] using hno)
+      have hid : idleAtL (i' + 1) (step s .srcIdle).stages = idleAtL (i' + 1) s.stages := by
+        cases hst : s.stages <;> simp [step, hst, idleAtL]
+      simp only [countTimeouts, Nat.zero_add]
+      exact ⟨h1, fun h => h2 (by rw [hid]; exact h)⟩
+    | recv j els =>
+      have hj : j + 1 ≠ i' + 1 := by
+        simp only [noRecvOf, Bool.and_eq_true, bne_iff_ne] at hno; exact hno.1
+      obtain ⟨h1, h2⟩ := ih (i' + 1) (step s (.recv j els)) hi (by
+        simp only [noRecvOf, Bool.and_eq_true] at hno; exact hno.2)
+      have hid : idleAtL (i' + 1) (step s (.recv j els)).stages = idleAtL (i' + 1) s.stages := by
+        simpa [step] using recv_keeps_idle j els (i' + 1) s.stages s.sink hj
+      simp only [countTimeouts, Nat.zero_add]
+      exact ⟨h1, fun h => h2 (by rw [hid]; exact h)⟩
+    | timeout j =>
+      obtain ⟨h1, h2⟩ := ih (i' + 1) (step s (.timeout j)) hi (by simpa [noRecvOf] using hno)
+      have hkeep : idleAtL (i' + 1) s.stages = true → idleAtL (i' + 1) (step s (.timeout j)).stages = true := by
+        intro h; simpa [step] using timeout_keeps_idle j (i' + 1) s.stages h
+      simp only [countTimeouts]
+      by_cases hji : j = i' + 1
+      · subst hji
+        cases hen : timeoutEnabledL (i' + 1) s.stages with
+        | true =>
+          have hset : idleAtL (i' + 1) (step s (.timeout (i' + 1))).stages = true := by
+            simpa [step] using timeout_sets_idle (i' + 1) s.stages hen
+          have h0 := h2 hset
+          refine ⟨by simp [Enabled, hen, h0], fun hidle => ?_⟩
+          have := idle_blocks_timeout (i' + 1) s.stages hidle
+          rw [hen] at this; cases this
+        | false =>
+          simp only [Enabled, hen, beq_self_eq_true, Bool.and_false, Bool.false_eq_true, if_false, Nat.zero_add]
+          exact ⟨h1, fun h => h2 (hkeep h)⟩
+      · have e0 : (if (decide (j = i' + 1) && Enabled s (.timeout j)) = true then 1 else 0) = 0 := by
+          simp [hji]
+        rw [e0, Nat.zero_add]
+        exact ⟨h1, fun h => h2 (hkeep h)⟩
+
 end Noir.Latency
+
+/-! ## The general network -/
+namespace Noir.Net
+open Noir.Batcher (SingleOk)
+
+variable {α : Type}
+
+/-- per-row invariant relative to what the destinations have received over the row's links -/
+def RowInv (m : Batcher.Mode) (rcv : Nat → List α) (ρ : Row α) : Prop :=
+  ∀ d, rcv d ++ (ρ.out d).flatten ++ ρ.buf d = ρ.sent d ∧ SingleOk m (ρ.buf d)
+
+theorem push_inv (m : Batcher.Mode) (dest : α → Nat) (rcv : Nat → List α) (ρ : Row α) (y : α) (el : Bool)
+    (h : RowInv m rcv ρ) :
+    RowInv m rcv (ρ.push m dest y el) ∧
+    ∀ d, (ρ.push m dest y el).sent d = ρ.sent d ++ (if dest y = d then [y] else []) := by
+  constructor
+  · intro d
+    by_cases hd : d = dest y
+    · subst hd
+      obtain ⟨h1, h2⟩ := h (dest y)
+      have hc := Batcher.enqueue_conserve m (ρ.buf (dest y)) h2 y el
+      have hk := Batcher.step_singleOk m (ρ.buf (dest y)) h2 (.enqueue y el)
+      refine ⟨?_, by simpa [Row.push, Batcher.step] using hk⟩
+      simp only [Row.push, if_true, List.flatten_append, List.append_assoc]
+      rw [hc, ← h1]; simp [List.append_assoc]
+    · simpa [Row.push, hd] using h d
+  · intro d
+    by_cases hd : d = dest y
+    · subst hd; simp [Row.push]
+    · have : ¬ dest y = d := fun h => hd h.symm
+      simp [Row.push, hd, this]
+
+theorem pushAll_inv (m : Batcher.Mode) (dest : α → Nat) (rcv : Nat → List α) :
+    ∀ (ys : List α) (ρ : Row α) (els : List Bool), RowInv m rcv ρ →
+    RowInv m rcv (Row.pushAll m dest ρ ys els) ∧
+    ∀ d, (Row.pushAll m dest ρ ys els).sent d = ρ.sent d ++ ys.filter (fun y => dest y = d) := by
+  intro ys
+  induction ys with
+  | nil => intro ρ els h; exact ⟨h, fun d => by simp [Row.pushAll]⟩
+  | cons y ys ih =>
+    intro ρ els h
+    obtain ⟨h1, h2⟩ := push_inv m dest rcv ρ y (els.headD false) h
+    obtain ⟨g1, g2⟩ := ih _ els.tail h1
+    refine ⟨g1, fun d => ?_⟩
+    simp only [Row.pushAll]
+    rw [g2 d, h2 d]
+    by_cases hd : dest y = d <;> simp [hd, List.filter_cons]
+
+theorem flushAll_inv (m : Batcher.Mode) (rcv : Nat → List α) (ρ : Row α) (h : RowInv m rcv ρ) :
+    RowInv m rcv ρ.flushAll ∧ (∀ d, ρ.flushAll.buf d = []) ∧ ρ.flushAll.sent = ρ.sent := by
+  refine ⟨fun d => ?_, fun d => Batcher.flush_fst _, rfl⟩
+  obtain ⟨h1, _⟩ := h d
+  have hc := Batcher.flush_conserve (ρ.buf d)
+  refine ⟨?_, fun _ => Batcher.flush_fst _⟩
+  simp only [Row.flushAll, List.flatten_append, List.append_assoc]
+  rw [hc]; simpa [List.append_assoc] using h1
+
+/-- the invariant of the network -/
+structure Inv (c : Cfg α) (s : State α) : Prop where
+  /-- per link, exactly and in order: received ++ in flight (channel, then batcher) = enqueued -/
+  link : ∀ i r, RowInv (c.mode i) (s.recvOn i r) (s.row i r)
+  /-- a replica enqueues towards `d` exactly the elements, of what it made of its input, routed to `d` -/
+  routed : ∀ i r d, i ≤ c.depth →
+      (s.row i r).sent d = ((s.got i r).flatMap (c.f i)).filter (fun y => dest c i y = d)
+  /-- rows beyond the last layer (the sink has no `End`) are never written -/
+  beyond : ∀ i r d, c.depth < i → (s.row i r).sent d = []
+  /-- a replica in its untimed receive (or asleep source) holds nothing in ANY of its batchers -/
+  idle : ∀ i r, s.idle i r = true → ∀ d, (s.row i r).buf d = []
+
+theorem inv_init (c : Cfg α) : Inv c (State.init : State α) := by
+  refine ⟨fun i r d => ⟨by simp [State.init, Row.empty], fun _ => rfl⟩, fun i r d _ => by simp [State.init, Row.empty],
+    fun i r d _ => rfl, fun i r _ d => rfl⟩
+
+theorem process_inv (c : Cfg α) (s : State α) (i r : Nat) (xs : List α) (els : List Bool)
+    (hi : i ≤ c.depth) (h : Inv c s) : Inv c (process c s i r xs els) := by
+  obtain ⟨g1, g2⟩ := pushAll_inv (c.mode i) (dest c i) (s.recvOn i r) (xs.flatMap (c.f i)) (s.row i r) els (h.link i r)
+  refine ⟨fun i' r' => ?_, fun i' r' d hi' => ?_, fun i' r' d hi' => ?_, fun i' r' hid d => ?_⟩
+  · by_cases hir : i' = i ∧ r' = r
+    · obtain ⟨rfl, rfl⟩ := hir
+      simpa [process, setRow] using g1
+    · simpa [process, setRow, hir] using h.link i' r'
+  · by_cases hir : i' = i ∧ r' = r
+    · obtain ⟨rfl, rfl⟩ := hir
+      simp only [process, setRow, and_self, if_true]
+      rw [g2 d, h.routed i' r' d hi']
+      simp [List.flatMap_append, List.filter_append]
+    · simpa [process, setRow, hir] using h.routed i' r' d hi'
+  · have hir : ¬ (i' = i ∧ r' = r) := by omega
+    simpa [process, setRow, hir] using h.beyond i' r' d hi'
+  · by_cases hir : i' = i ∧ r' = r
+    · simp [process, hir] at hid
+    · have : s.idle i' r' = true := by
+        simp only [process] at hid; rw [if_neg hir] at hid; exact hid
+      simpa [process, setRow, hir] using h.idle i' r' this d
+
+theorem flushIdle_inv (c : Cfg α) (s : State α) (i r : Nat) (h : Inv c s) : Inv c (flushIdle s i r) := by
+  obtain ⟨g1, g2, g3⟩ := flushAll_inv (c.mode i) (s.recvOn i r) (s.row i r) (h.link i r)
+  refine ⟨fun i' r' => ?_, fun i' r' d hi' => ?_, fun i' r' d hi' => ?_, fun i' r' hid d => ?_⟩
+  · by_cases hir : i' = i ∧ r' = r
+    · obtain ⟨rfl, rfl⟩ := hir
+      simpa [flushIdle, setRow] using g1
+    · simpa [flushIdle, setRow, hir] using h.link i' r'
+  · by_cases hir : i' = i ∧ r' = r
+    · obtain ⟨rfl, rfl⟩ := hir
+      simpa [flushIdle, setRow, g3] using h.routed i' r' d hi'
+    · simpa [flushIdle, setRow, hir] using h.routed i' r' d hi'
+  · by_cases hir : i' = i ∧ r' = r
+    · obtain ⟨rfl, rfl⟩ := hir
+      simpa [flushIdle, setRow, g3] using h.beyond i' r' d hi'
+    · simpa [flushIdle, setRow, hir] using h.beyond i' r' d hi'
+  · by_cases hir : i' = i ∧ r' = r
+    · obtain ⟨rfl, rfl⟩ := hir
+      simpa [flushIdle, setRow] using g2 d
+    · have : s.idle i' r' = true := by
+        simp only [flushIdle] at hid; rw [if_neg hir] at hid; exact hid
+      simpa [flushIdle, setRow, hir] using h.idle i' r' this d
+
+/-- taking the oldest batch `b` off link `(j, u) → (j+1, r)` -/
+theorem pop_inv (c : Cfg α) (s : State α) (j u r : Nat) (b : List α) (bs : List (List α))
+    (hout : (s.row j u).out r = b :: bs) (h : Inv c s) :
+    Inv c { s with
+      row := setRow s j u { s.row j u with out := fun d => if d = r then bs else (s.row j u).out d },
+      recvOn := fun i' u' r' => if i' = j ∧ u' = u ∧ r' = r then s.recvOn j u r ++ b else s.recvOn i' u' r' } := by
+  refine ⟨fun i' r' d => ?_, fun i' r' d hi' => ?_, fun i' r' d hi' => ?_, fun i' r' hid d => ?_⟩
+  · by_cases hir : i' = j ∧ r' = u
+    · obtain ⟨rfl, rfl⟩ := hir
+      obtain ⟨h1, h2⟩ := h.link i' r' d
+      by_cases hd : d = r
+      · subst hd
+        rw [hout] at h1
+        refine ⟨?_, by simpa [setRow] using h2⟩
+        simp only [setRow, and_self, if_true, true_and]
+        rw [← h1]; simp [List.append_assoc]
+      · simpa [setRow, hd] using h.link i' r' d
+    · have : ¬ (i' = j ∧ r' = u ∧ d = r) := fun hh => hir ⟨hh.1, hh.2.1⟩
+      simpa [setRow, hir, this] using h.link i' r' d
+  · by_cases hir : i' = j ∧ r' = u
+    · obtain ⟨rfl, rfl⟩ := hir
+      simpa [setRow] using h.routed i' r' d hi'
+    · simpa [setRow, hir] using h.routed i' r' d hi'
+  · by_cases hir : i' = j ∧ r' = u
+    · obtain ⟨rfl, rfl⟩ := hir
+      simpa [setRow] using h.beyond i' r' d hi'
+    · simpa [setRow, hir] using h.beyond i' r' d hi'
+  · by_cases hir : i' = j ∧ r' = u
+    · obtain ⟨rfl, rfl⟩ := hir
+      simpa [setRow] using h.idle i' r' hid d
+    · simpa [setRow, hir] using h.idle i' r' hid d
+
+theorem step_inv (c : Cfg α) (s : State α) (e : Ev α) (h : Inv c s) : Inv c (step c s e) := by
+  cases e with
+  | src r x els => exact process_inv c s 0 r [x] els (Nat.zero_le _) h
+  | srcIdle r => exact flushIdle_inv c s 0 r h
+  | timeout i r =>
+    simp only [step]
+    split
+    · exact flushIdle_inv c s i r h
+    · exact h
+  | recv i r u els =>
+    simp only [step]
+    split
+    · exact h
+    · split
+      · exact h
+      · rename_i b bs hout
+        have hp := pop_inv c s (i - 1) u r b bs hout h
+        split
+        · rename_i hi
+          exact process_inv c _ i r b els hi hp
+        · rename_i hi
+          -- the sink: only its ghost `got` changes, and `routed` does not speak about it
+          refine ⟨hp.link, fun i' r' d hi' => ?_, hp.beyond, hp.idle⟩
+          have hir : ¬ (i' = i ∧ r' = r) := by omega
+          simpa [hir] using hp.routed i' r' d hi'
+
+theorem run_inv (c : Cfg α) : ∀ (es : List (Ev α)) (s : State α), Inv c s → Inv c (run c s es) := by
+  intro es
+  induction es with
+  | nil => intro s h; exact h
+  | cons e es ih => intro s h; exact ih _ (step_inv c s e h)
+
+theorem inputEmpty_of_out_empty (c : Cfg α) (s : State α) (i r : Nat)
+    (h : ∀ i r d, (s.row i r).out d = []) : inputEmpty c s i r = true := by
+  simp [inputEmpty, h]
+
+theorem stuck_quiescent (c : Cfg α) (s : State α) (h : Inv c s) (hst : Stuck c s)
+    (hadp : ∀ i, 1 ≤ i → i ≤ c.depth → isAdaptive (c.mode i) = true) :
+    Quiescent s ∧ ∀ i r d, s.recvOn i r d = (s.row i r).sent d := by
+  obtain ⟨hout, hsrc, hto⟩ := hst
+  have hidle : ∀ i r, i ≤ c.depth → s.idle i r = true := by
+    intro i r hi
+    cases i with
+    | zero => exact hsrc r
+    | succ i =>
+      have := hto (i + 1) r (by omega) hi
+      have h1 : decide (1 ≤ i + 1) = true := by simp
+      have h2 : decide (i + 1 ≤ c.depth) = true := by simpa using hi
+      simp only [timeoutEnabled, inputEmpty_of_out_empty c s (i + 1) r hout, hadp (i + 1) (by omega) hi,
+        h1, h2, Bool.and_true, Bool.true_and] at this
+      simpa using this
+  have hbuf : ∀ i r d, (s.row i r).buf d = [] := by
+    intro i r d
+    by_cases hi : i ≤ c.depth
+    · exact h.idle i r (hidle i r hi) d
+    · have h1 := (h.link i r d).1
+      rw [h.beyond i r d (by omega)] at h1
+      have := congrArg List.length h1
+      simp only [List.length_append, List.length_nil] at this
+      exact List.eq_nil_of_length_eq_zero (by omega)
+  refine ⟨fun i r d => ⟨hbuf i r d, hout i r d⟩, fun i r d => ?_⟩
+  have := (h.link i r d).1
+  simpa [hout i r d, hbuf i r d] using this
+
+end Noir.Net
